@@ -315,6 +315,10 @@ pub fn run_batch(batch: &Batch, work: &Path, tag: &str, stats: &Stats) -> Result
 }
 
 pub fn main(ctx: &Ctx) -> i32 {
+    // real clusters: one case legitimately takes minutes (formation, time-outs, re-runs for classification)
+    if std::env::var("RNV_CASE_TIMEOUT_MS").is_err() {
+        std::env::set_var("RNV_CASE_TIMEOUT_MS", "300000");
+    }
     let work = work_dir(ctx);
     let stats = Arc::new(Stats::default());
     let fin = || Finish {
